@@ -424,10 +424,11 @@ def rule_CW(run: Run) -> RuleResult:
         raise AnalysisError("Overloaded.register not found")
     ok = False
     d = "no assignment to self.lookup"
+    amap_r = astu.single_assign_map(reg)
     for s in ast.walk(reg):
         if isinstance(s, ast.Assign) and ast.unparse(s.targets[0]) == "self.lookup":
-            d = ast.unparse(s.value)
-            v = s.value
+            v = astu.expand_locals(s.value, amap_r)
+            d = ast.unparse(v)
             ps_ = astu.param_names(reg)
             ok = isinstance(v, ast.Dict) and len(v.keys) == 2 and v.keys[0] is None and ast.unparse(v.values[0]) == "self.lookup" \
                 and v.keys[1] is not None and ast.unparse(v.keys[1]) == ps_[0] and ast.unparse(v.values[1]) == ps_[1]
